@@ -184,6 +184,16 @@ package internal
 //@ func (*Palette).BucketHeader
 //@   requires p != nil && b != nil
 //@   modifies nothing
+//@   gvar sl string
+//@   gvar cb string
+//@   gvar col string
+//@   update after-call SleepString#1: sl := ret0
+//@   update after-call createdByString#1: cb := ret0
+//@   update after-call routineColor#1: col := ret0
+//@   assert after-call SleepString#1: [sleepTextOfThisBucket C16] arg0 == &b.Signature
+//@   assert after-call createdByString#1: [creatorTextOfThisBucket C16] arg0 == pf && arg1 == &b.Signature
+//@   assert after-call routineColor#1: [colourByFirstAndMultiplicity C16] arg0 == p && (arg1 <==> b.First) && (arg2 <==> multipleBuckets)
+//@   assert after-call fmt.Sprintf#1: [headerShowsCountStateSleepLockAndCreator C16] len(arg1) == 5 && strof(arg1[0]) == col && intof(arg1[1]) == len(b.IDs) && strof(arg1[2]) == b.State && strof(arg1[4]) == p.EOLReset && strof(arg1[3]) == (sl != "" ? " [" + sl + "]" : "") + (b.Locked ? " [locked]" : "") + (cb != "" ? p.CreatedBy + " [Created by " + cb + "]" : "")
 //@ func (*Palette).GoroutineHeader
 //@   requires p != nil && g != nil
 //@   modifies nothing
@@ -193,5 +203,10 @@ package internal
 //@ func (*Palette).StackLines
 //@   requires p != nil && signature != nil
 //@   modifies nothing
+//@   gvar ln [int]string
+//@   update after-call callLine#1: ln[rangeindex] := ret0
+//@   assert after-call callLine#1: [lineOfThisFrame C16] arg0 == p && arg1 == &signature.Stack.Calls[i] && arg2 == srcLen && arg3 == pkgLen && arg4 == pf
+//@   assert after-call strings.Join#1: [oneLinePerFrameAndAMarkerWhenElided C16] len(arg0) == len(signature.Stack.Calls) + (signature.Stack.Elided ? 1 : 0) && (forall k :: 0 <= k && k < len(signature.Stack.Calls) ==> arg0[k] == ln[k]) && (signature.Stack.Elided ==> arg0[len(signature.Stack.Calls)] == "    (...)") && arg1 == "\n"
 //@   loop 0: invariant -1 <= rangeindex && fresh(out) && len(out) == len(signature.Stack.Calls)
+//@   loop 0: invariant forall k :: 0 <= k && k <= rangeindex ==> out[k] == ln[k]
 //@   loop 0: decreases len(signature.Stack.Calls) - rangeindex
